@@ -14,10 +14,14 @@ Piece(sym) == CASE sym = "x" -> <<82>> [] sym = "A" -> <<105, 110>> [] sym = "B"
                 [] sym = ">" -> <<62>> [] sym = "<" -> <<60>> [] sym = "=" -> <<61>> [] sym = "." -> <<46>>
                 [] sym = "G" -> <<82>>       \* the braces of a balanced group are not characters for a reader
                 [] sym = "E" -> <<>>         \* "{}": an empty balanced group
+                [] sym = "H" -> <<>>         \* "{\in}": a group holding a supported command (events: GroupEv)
                 [] OTHER -> <<>>
 Ch(cp) == [t |-> "c", v |-> cp, p |-> -1]
 Kw(name, param) == [t |-> "k", v |-> name, p |-> param]
 Chars(cps) == [j \in 1..Len(cps) |-> Ch(cps[j])]
+Groups == {"G", "E", "H"}
+\* what a reader sees of a group that was looked up together with the command before it (nothing inside is converted)
+GroupEv(sym) == IF sym = "H" THEN <<Kw("in", -1)>> ELSE Chars(Piece(sym))
 Name(sym) == CASE sym = "x" -> "R" [] sym = "A" -> "in" [] sym = "B" -> "t" [] sym = "M" -> "mathbb" [] sym = "p" -> "pagenumber" [] OTHER -> ""
 RECURSIVE RunName(_, _, _)
 RunName(s, from, to) == IF from > to THEN "" ELSE Name(s[from]) \o RunName(s, from + 1, to)
@@ -50,8 +54,8 @@ GluedToField(s, e) == FieldTrailingSpace /\ e + 1 <= Len(s) /\ s[e + 1] = "F"
 KCommand(s, i, conv, k) ==
   LET e == RunEnd(s, i + 1)                       \* letters glued to the command name
       name == k.name \o RunName(s, i + 1, e)
-      braced == e + 1 <= Len(s) /\ s[e + 1] \in {"G", "E"}
-      grp == IF braced THEN Chars(Piece(s[e + 1])) ELSE <<>>
+      braced == e + 1 <= Len(s) /\ s[e + 1] \in Groups
+      grp == IF braced THEN GroupEv(s[e + 1]) ELSE <<>>
   IN IF k.braced
      THEN (IF conv THEN << Chars(k.cps), i + 1 >> ELSE << <<Kw(k.name, -1)>> \o Chars(k.arg), i + 1 >>)
      ELSE IF ~conv THEN (IF braced THEN << <<Kw(name, -1)>> \o grp, e + 2 >> ELSE Verbatim(s, name, e + 1))
@@ -64,12 +68,12 @@ KCommand(s, i, conv, k) ==
 VerbatimCmd(s, i, name0) ==
   LET e == RunEnd(s, i + 1)
       name == name0 \o RunName(s, i + 1, e)
-  IN IF e + 1 <= Len(s) /\ s[e + 1] \in {"G", "E"} THEN << <<Kw(name, -1)>> \o Chars(Piece(s[e + 1])), e + 2 >> ELSE Verbatim(s, name, e + 1)
+  IN IF e + 1 <= Len(s) /\ s[e + 1] \in Groups THEN << <<Kw(name, -1)>> \o GroupEv(s[e + 1]), e + 2 >> ELSE Verbatim(s, name, e + 1)
 Command(s, i, conv) ==
   LET e == RunEnd(s, i + 1)
       name == RunName(s, i + 1, e)
-      braced == e + 1 <= Len(s) /\ s[e + 1] \in {"G", "E"}
-      grp == IF braced THEN Chars(Piece(s[e + 1])) ELSE <<>>
+      braced == e + 1 <= Len(s) /\ s[e + 1] \in Groups
+      grp == IF braced THEN GroupEv(s[e + 1]) ELSE <<>>
   IN IF e < i + 1 THEN << <<>>, i + 1 >>                                   \* lone backslash: outside the quantifier
      ELSE IF ~conv THEN (IF braced THEN << <<Kw(name, -1)>> \o grp, e + 2 >> ELSE Verbatim(s, name, e + 1))
      ELSE IF s[i + 1] = "p" THEN << <<Kw("chpgn", -1)>> \o RunChars(s, i + 2, e), e + 1 >>      \* page-number keyword
@@ -86,6 +90,8 @@ Step(s, i, conv, k) ==
   ELSE IF sym = "T" THEN (IF conv THEN << <<Kw("totalpage", -1)>>, i + 1 >> ELSE VerbatimCmd(s, i, "totalpage"))
   ELSE IF sym = "F" THEN (IF conv THEN << <<Kw("field:NUMPAGES", -1)>> \o (IF FieldTrailingSpace THEN <<Ch(32)>> ELSE <<>>), i + 1 >>
                           ELSE VerbatimCmd(s, i, "pagefield"))
+  \* a group that does not directly follow a command: its content is converted like any other text
+  ELSE IF sym = "H" THEN << IF conv THEN <<Ch(8712)>> ELSE <<Kw("in", -1)>>, i + 1 >>
   ELSE IF ~conv THEN (IF sym = "nl" THEN << <<>>, i + 1 >> ELSE << Chars(Piece(sym)), i + 1 >>)
   ELSE IF sym = "^" THEN << <<Kw("super", -1)>>, i + 1 >>
   ELSE IF sym = "_" THEN << <<Kw("sub", -1)>>, i + 1 >>
